@@ -20,6 +20,8 @@ import CelloProofs.Lemmas.RegistryIns
 import CelloProofs.Lemmas.RegistryRehash
 import CelloProofs.Lemmas.RegistryOps
 import CelloProofs.Lemmas.RegistryHistory
+import CelloProofs.Lemmas.RegistryKills
+import CelloProofs.Lemmas.RegistryInvB
 
 namespace Cello.Registry
 open RH
@@ -159,6 +161,41 @@ theorem C17_progress (r : Reg) (L : Ledger) (h : Reach gcCfg r L) (op : Op) (hok
 theorem C17_ledger_distinct (r : Reg) (L : Ledger) (h : Reach gcCfg r L) : (L.map Prod.fst).Nodup :=
   (reach_wf gcCfg gcCfg_good r L h).nodup
 
+/-- **The executable invariant is sound**: whenever the Boolean check `invB`, which the driver evaluates on every state it
+    compares with the C dump, answers `true`, the propositional invariant of the theorems above holds (stored homes, distinct
+    keys — through "the probe finds this very slot" —, predecessor support, consistent count, an empty slot, bounds). -/
+theorem C17_invB_sound (r : Reg) (h : invB gcCfg r = true) :
+    Inv0 (hashOf gcCfg) r.slots ∧ r.nitems = occ r.slots ∧ Room r ∧
+      (∀ i (hi : i < r.n) e, r.slots[i] = some e → r.minptr ≤ e.key ∧ e.key ≤ r.maxptr) :=
+  invB_sound gcCfg r h
+
+/-! ### removals while a sweep (or another removal) is in progress: destructors that delete other objects -/
+
+/-- **GC_Rem with arbitrary destructors, in any state — including mid-sweep, with objects waiting on the pending list.**
+    `K p` lists what the destructor of `p` deletes.  From a well-formed state (`WFP`: as `Exact`, pending list arbitrary) the
+    nested recursion GC_Rem → GC_Rem_Ptr → destructor → GC_Rem … of the model terminates within the fuel the model provides
+    and refines the same recursion on (ledger, pending addresses) `absExec`: an address waiting on the pending list is struck
+    off and finalised (the repaired defect F24), a registered one is erased and finalised, anything else is ignored; the
+    deallocation trace is the abstract one; the resulting state is well formed for the resulting ledger; nothing is added. -/
+theorem C17_rem_nested (K : Nat → List Nat) (r : Reg) (L : Ledger) (h : WFP gcCfg r L) (x : Nat) :
+    ∃ r' a' t, gcRem gcCfg K r x = some (r', t) ∧
+      absExec K r.running (nestFuel r) (L, pendList r) (.rem x) = some (a', t) ∧
+      WFP gcCfg r' a'.1 ∧ pendList r' = a'.2 ∧ r'.running = r.running ∧ Abs.size a' ≤ Abs.size (L, pendList r) := by
+  obtain ⟨r', a', t, h1, h2, h3, h4, h5, _, h7⟩ := gcRem_sim gcCfg gcCfg_good K r L h x
+  exact ⟨r', a', t, h1, h2, h3, h4, h5, h7⟩
+
+/-- the simulation itself, for every fuel and both commands (finalise `p`, remove `x`): the model fails exactly when the
+    abstract recursion runs out of fuel, and otherwise agrees with it -/
+theorem C17_nested_simulation (K : Nat → List Nat) (fuel : Nat) (r : Reg) (a : Abs) (cmd : Cmd)
+    (h : WFP gcCfg r a.1) (hp : pendList r = a.2) :
+    Sim gcCfg r.running r.pending.size (exec gcCfg K fuel r cmd) (absExec K r.running fuel a cmd) :=
+  exec_sim gcCfg gcCfg_good K fuel r a cmd h hp
+
+/-- every reachable state is such a well-formed state (with an empty pending list) -/
+theorem C17_reach_wfp (r : Reg) (L : Ledger) (h : Reach gcCfg r L) : WFP gcCfg r L ∧ pendList r = [] := by
+  have hwf := reach_wf gcCfg gcCfg_good r L h
+  exact ⟨hwf.toWFP, by unfold pendList; rw [hwf.pend]; rfl⟩
+
 /-! ### non-vacuity: concrete histories and states -/
 
 def demoA : Nat := 35184372088864
@@ -181,6 +218,18 @@ example : (runOps gcCfg Reg.init [] (demoOps.take 5)).map (fun x => (x.1.n, x.1.
 
 example : (runOps gcCfg Reg.init [] demoOps).map (fun x => (x.1.n, x.1.nitems, x.1.mitems, x.2)) =
     some (5, 2, 4, [(demoA+440, true), (demoA, false)]) := by decide +kernel
+
+/-- the executable invariant holds on the states of the demo history (hypothesis of `C17_invB_sound`) -/
+example : (runOps gcCfg Reg.init [] (demoOps.take 5)).map (fun x => invB gcCfg x.1) = some true := by decide +kernel
+
+/-- a removal in a mid-sweep state: after the demo history, with address `demoA+8` waiting on the pending list, `del` of that
+    address strikes it off and finalises it; the destructor of `demoA+8` deletes the registered `demoA`, which is erased and
+    finalised first (its own destructor deleting `demoA+8` again finds nothing) -/
+example :
+    ((runOps gcCfg Reg.init [] demoOps).bind (fun x =>
+        (gcRem gcCfg (fun p => if p = demoA + 8 then [demoA] else if p = demoA then [demoA + 8] else [])
+          { x.1 with pending := #[some (demoA + 8)] } (demoA + 8)).map (fun y => (y.2, y.1.nitems, y.1.pending)))) =
+      some ([demoA, demoA + 8], 1, #[none]) := by decide +kernel
 
 /-- reachable states with a non-empty ledger exist (so `C17_registry_exact` is not vacuous): by `C17_progress` any
     admissible operation extends a history -/
